@@ -7,6 +7,7 @@ import (
 
 	"cosmossdk.io/math"
 	sdk "github.com/cosmos/cosmos-sdk/types"
+	banktypes "github.com/cosmos/cosmos-sdk/x/bank/types"
 
 	"verifharness/fw"
 	"verifharness/lab"
@@ -248,7 +249,16 @@ func c16Proposal(c *fw.Ctx, e *Env, g *Gen, r *fw.Rand) {
 		msg = &streamtypes.MsgUpdateParams{Authority: lab.GovAuthority(), Params: p}
 	}
 	oldWrk, oldBeacon := obs.WrkParams, obs.BeaconParams
-	passed := e.Gov(module+" params", msg)
+	// a valid update followed, in the same proposal, by a message that fails: x/gov discards the
+	// whole branch, so nothing of the update may remain - neither in the store nor in behaviour
+	rolledBack := len(problems) == 0 && r.Chance(22)
+	var passed bool
+	if rolledBack {
+		failing := banktypes.NewMsgSend(lab.ModAddr("gov"), e.L.Accts[1].Addr, sdk.NewCoins(sdk.NewCoin(lab.Denom, math.NewIntWithDecimal(1, 40))))
+		passed = e.Gov(module+" params + failing message (rolled back)", msg, failing)
+	} else {
+		passed = e.Gov(module+" params", msg)
+	}
 	if e.Halted != "" {
 		return
 	}
@@ -272,6 +282,29 @@ func c16Proposal(c *fw.Ctx, e *Env, g *Gen, r *fw.Rand) {
 		}
 		return
 	}
+	if rolledBack {
+		c.Count("rolled_back_valid_updates", 1)
+		c.Distinct(fmt.Sprintf("%s/valid+failing-message/passed=%v", module, passed))
+		if after != before {
+			c.Violate("rolled-back-update-changed-params", module, "a %s parameter update whose proposal failed at a later message changed the stored parameters from {%s} to {%s}", module, oneLine(before), oneLine(after))
+			return
+		}
+		// behaviour must follow the stored (unchanged) values: a record priced with the PROPOSED fee
+		// must not be admitted
+		if module == "wrkchain" {
+			var pp wrkchaintypes.Params = msg.(*wrkchaintypes.MsgUpdateParams).Params
+			if pp.FeeRecord != oldWrk.FeeRecord && pp.Denom == oldWrk.Denom {
+				c16StaleFeeProbe(c, e, g, true, pp.FeeRecord, pp.Denom, "of a rolled-back proposal")
+			}
+		}
+		if module == "beacon" {
+			var pp beacontypes.Params = msg.(*beacontypes.MsgUpdateParams).Params
+			if pp.FeeRecord != oldBeacon.FeeRecord && pp.Denom == oldBeacon.Denom {
+				c16StaleFeeProbe(c, e, g, false, pp.FeeRecord, pp.Denom, "of a rolled-back proposal")
+			}
+		}
+		return
+	}
 	c.Distinct(fmt.Sprintf("%s/valid/passed=%v", module, passed))
 	if passed {
 		if after != proposed {
@@ -281,10 +314,10 @@ func c16Proposal(c *fw.Ctx, e *Env, g *Gen, r *fw.Rand) {
 		}
 		// "only the new values": a record priced with the OLD fee must no longer be admitted
 		if module == "wrkchain" && oldWrk.FeeRecord != e.Last.WrkParams.FeeRecord && oldWrk.Denom == e.Last.WrkParams.Denom {
-			c16StaleFeeProbe(c, e, g, true, oldWrk.FeeRecord, oldWrk.Denom)
+			c16StaleFeeProbe(c, e, g, true, oldWrk.FeeRecord, oldWrk.Denom, "in force before the update")
 		}
 		if module == "beacon" && oldBeacon.FeeRecord != e.Last.BeaconParams.FeeRecord && oldBeacon.Denom == e.Last.BeaconParams.Denom {
-			c16StaleFeeProbe(c, e, g, false, oldBeacon.FeeRecord, oldBeacon.Denom)
+			c16StaleFeeProbe(c, e, g, false, oldBeacon.FeeRecord, oldBeacon.Denom, "in force before the update")
 		}
 	}
 }
@@ -307,7 +340,7 @@ func dedupStr(xs []string) []string {
 
 // c16StaleFeeProbe: CheckTx a record that offers the previous record fee; admitted + executed means
 // a fee check still used the old value.
-func c16StaleFeeProbe(c *fw.Ctx, e *Env, g *Gen, wrk bool, oldFee uint64, denom string) {
+func c16StaleFeeProbe(c *fw.Ctx, e *Env, g *Gen, wrk bool, oldFee uint64, denom string, what string) {
 	obs := e.Last
 	var m sdk.Msg
 	var owner lab.Acct
@@ -352,6 +385,6 @@ func c16StaleFeeProbe(c *fw.Ctx, e *Env, g *Gen, wrk bool, oldFee uint64, denom 
 		if wrk {
 			mod = "wrkchain"
 		}
-		c.Violate("stale-fee-param-used", mod, "after the record fee changed from %d, a record offering the OLD fee %d%s was admitted by CheckTx and executed", oldFee, oldFee, denom)
+		c.Violate("stale-fee-param-used", mod, "a record offering %d%s - the record fee %s, not the stored one - was admitted by CheckTx and executed", oldFee, denom, what)
 	}
 }
